@@ -198,7 +198,10 @@ func prepare(name string, race bool) *built {
 		// only the library (and the tiny touch package) is instrumented: the
 		// simulator's own memory is invisible to ThreadSanitizer
 		args = append(args, "-race")
-		for _, p := range []string{"simrt", "shim/...", "simnet", "refmqtt", "model/...", "world/...", "cmd/...", "histcheck/..."} {
+		// (shim/atomic and instr/touch stay instrumented: the atomic operations of
+		// the library must reach ThreadSanitizer, and so must the transport's
+		// accesses to the buffers the library hands to Read/Write)
+		for _, p := range []string{"simrt", "shim/sync", "shim/time", "shim/net", "simnet", "refmqtt", "world/...", "cmd/..."} {
 			args = append(args, "-gcflags=verif/sim/"+p+"=-race=false")
 		}
 		bin += "-race"
@@ -430,7 +433,7 @@ func run(args []string) int {
 				// race-detector runtime cannot run under such a limit)
 				cmd = exec.Command("/bin/sh", append([]string{"-c", `ulimit -v 8388608; exec "$0" "$@"`, b.bin}, wargs...)...)
 			}
-			cmd.Env = append(os.Environ(), "GOMAXPROCS=1", "GORACE=halt_on_error=0 history_size=2", "GOTRACEBACK=single")
+			cmd.Env = append(os.Environ(), "GOMAXPROCS=1", "GORACE=halt_on_error=0 exitcode=0 history_size=2", "GOTRACEBACK=single")
 			stdout, _ := cmd.StdoutPipe()
 			var errBuf bytes.Buffer
 			cmd.Stderr = &limitedWriter{w: &errBuf, max: 1 << 20}
@@ -796,10 +799,29 @@ type raceReport struct {
 
 // parseRaceReports extracts ThreadSanitizer reports from a worker's stderr
 // and keeps those whose two accesses are both performed by library code.
-func parseRaceReports(stderr string) []raceReport {
+func parseRaceReports(stderr string) (out0 []raceReport) {
 	var out []raceReport
+	defer func() { out0 = out }()
 	blocks := strings.Split(stderr, "==================")
 	index := -1
+	// run tags are printed when a run ends, i.e. after its reports
+	tags := map[int]string{}
+	for _, l := range strings.Split(stderr, "\n") {
+		if strings.HasPrefix(l, "RUNTAG ") {
+			f := strings.Fields(l)
+			if len(f) == 3 {
+				i, _ := strconv.Atoi(f[1])
+				tags[i] = f[2]
+			}
+		}
+	}
+	defer func() {
+		for i := range out {
+			if t := tags[out[i].index]; t != "" {
+				out[i].sig += "/run-with-" + t
+			}
+		}
+	}()
 	for _, blk := range blocks {
 		// run markers written by the worker on stderr: "RUN <index>"
 		for _, l := range strings.Split(blk, "\n") {
@@ -833,10 +855,7 @@ func parseRaceReports(stderr string) []raceReport {
 				if strings.HasPrefix(f, "/") || strings.HasPrefix(f, "Goroutine") {
 					continue
 				}
-				name := f
-				if k := strings.Index(name, "("); k > 0 {
-					name = name[:k]
-				}
+				name := strings.TrimSuffix(f, "()")
 				if strings.HasPrefix(name, "runtime.") || strings.HasPrefix(name, "verif/sim/instr/touch.") {
 					continue
 				}
@@ -848,7 +867,20 @@ func parseRaceReports(stderr string) []raceReport {
 		if len(acc) < 2 {
 			continue
 		}
-		lib := func(s string) bool { return strings.Contains(s, "github.com/mdzio/go-mqtt/") }
+		lib := func(s string) bool {
+			if !strings.Contains(s, "github.com/mdzio/go-mqtt/") {
+				return false
+			}
+			// the process-wide provider registries are plain maps filled at
+			// start-up (and by the harness between runs); they are not broker
+			// state shared by concurrent clients
+			for _, reg := range []string{"topics.Register", "topics.Unregister", "topics.NewManager", "sessions.Register", "sessions.Unregister", "sessions.NewManager", "auth.Register", "auth.Unregister", "auth.NewManager"} {
+				if strings.HasSuffix(s, "/"+reg) {
+					return false
+				}
+			}
+			return true
+		}
 		if !lib(acc[0]) || !lib(acc[1]) {
 			continue
 		}
